@@ -73,13 +73,18 @@ Proof.
   cbn [omap obind ounit fst snd]. rewrite need_0. reflexivity.
 Qed.
 
-(** `read_record` = header, then content *)
+(** `read_record` = header, then content.  (The generated `read_record_content` is a chain of 49 arms behind names: conversion
+    must not unfold it where the two sides already agree.) *)
+Strategy opaque [g_GdsReader_read_record_content].
+Lemma read_record_unfold : forall bs, g_read_record bs =
+  match g_read_record_header bs with
+  | Ok (h, bs') => g_GdsReader_read_record_content rd_xops bytes x_read_bytes x_read_f64 x_read_i16 x_read_i32 x_read_str h bs'
+  | Err e => Err e | Panic => Panic | OutOfFuel => OutOfFuel end.
+Proof. intros bs. reflexivity. Qed.
 Lemma tie_read_record : forall bs, forallb u8b (firstn 2 bs) = true ->
   as_rec (g_read_record bs) = ounit (read_record true bs).
 Proof.
-  intros bs H. unfold g_read_record, g_GdsReader_read_record, read_record. rs.
-  change (g_GdsReader_read_record_header rd_xops x_dt_from_u8 x_read_u16 x_read_u8 x_rt_from_u8 bs) with (g_read_record_header bs).
-  rewrite (tie_read_record_header bs H).
-  destruct (read_header bs) as [[[[rt dt] len] r]| | |]; cbn [omap obind ounit hdr_of]; try reflexivity.
+  intros bs H. rewrite read_record_unfold. rewrite (tie_read_record_header bs H). unfold read_record.
+  destruct (read_header bs) as [[[[rt dt] len] r]| | |]; try reflexivity.
   exact (tie_read_record_content rt dt len r).
 Qed.
